@@ -575,6 +575,8 @@ static void c14_file_run(void) {
 			dispatch_io_barrier(X.ch, ^{ op->barrier_start = h_stamp(); sim_point(); op->done_count = 1; op->barrier_end = h_stamp(); h_progress(); });
 			// epochs are made sequential by waiting for the barrier: the model is only updated between epochs
 			uint64_t t0 = sim_now(); while (!op->done_count && sim_now() - t0 < LIVENESS_NS) sim_sleep_ns(200 * USEC);
+			// (progress is only owed once the faults have stopped: injected clock warps and short writes can eat the budget)
+			if (!op->done_count && !sim_is_fair()) { sim_set_fair(); t0 = sim_now(); while (!op->done_count && sim_now() - t0 < LIVENESS_NS) sim_sleep_ns(200 * USEC); }
 			if (!op->done_count) h_stuck("never-done", "a barrier on the file channel did not run");
 			// the barrier orders I/O, not handler deliveries: every earlier write must have reached the file by now
 			for (int j = 0; j < i; j++) { ioop *w = &X.ops[j]; if (w->kind == IO_WRITE && w->submitted && !w->after_done) { w->after_done = 1;
@@ -590,6 +592,7 @@ static void c14_file_run(void) {
 		sim_point();
 	}
 	X.client_done = 1;
+	sim_set_fair();   // end of the fault phase: from here on no injected clock warps, short writes or errors; completion is owed within the bound
 	if (h_wait_until(io_done, NULL, LIVENESS_NS)) h_stuck("never-done", "a file operation never saw done");
 	if (Y.on) bystander_judge();
 	if (!X.closed_call) { dispatch_io_close(X.ch, 0); X.closed_call = 1; }
